@@ -1080,6 +1080,14 @@ void janet_buffer_format(
                     if (form[2] == '\0')
                         janet_buffer_push_bytes(b, s, l);
                     else {
+                        uint8_t *copy = NULL;
+                        if (janet_checktype(argv[arg], JANET_BUFFER)) {
+                            /* Buffer data is not NUL terminated, strlen and snprintf would read past it. */
+                            copy = janet_smalloc((size_t) l + 1);
+                            safe_memcpy(copy, s, (size_t) l);
+                            copy[l] = '\0';
+                            s = copy;
+                        }
                         if (l != (int32_t) strlen((const char *) s))
                             janet_panic("string contains zeros");
                         if (!strchr(form, '.') && l >= 100) {
@@ -1087,6 +1095,7 @@ void janet_buffer_format(
                         } else {
                             nb = snprintf(item, MAX_ITEM, form, s);
                         }
+                        if (copy) janet_sfree(copy);
                     }
                     break;
                 }
